@@ -49,7 +49,7 @@ class BitWriter:
 MSM4 = [1074, 1084, 1094, 1104, 1114, 1124, 1134]
 MSM7 = [1077, 1087, 1097, 1107, 1117, 1127, 1137]
 MSM = MSM4 + MSM7
-BOUNDARY_LENS = [1, 2, 3, 4, 5, 6, 7, 8, 9, 10, 18, 19, 20, 21, 22, 255, 256, 257, 1022, 1023]
+BOUNDARY_LENS = [1, 2, 3, 4, 5, 6, 7, 8, 9, 10, 18, 19, 20, 21, 22, 255, 256, 257, 511, 512, 513, 767, 768, 769, 1022, 1023]
 
 
 def rand_bytes(rng, n):
@@ -188,7 +188,7 @@ def corrupt(rng, frame, mode=None):
         elif mode == "field":
             # whole fields forced to an extreme: the 12 type bits all clear / all set, the first payload bytes or
             # the whole payload zeroed or set (a dropout or a stuck line), the CRC zeroed
-            k = rng.choice(["type0", "type0", "typeF", "head0", "headF", "all0", "allF", "crc0"])
+            k = rng.choice(["type0", "type0", "typeF", "head0", "headF", "all0", "allF", "crc0", "endD3", "endD3"])
             if k == "type0" and n >= 8:
                 g[3] = 0
                 g[4] &= 0x0F
@@ -201,6 +201,10 @@ def corrupt(rng, frame, mode=None):
             elif k in ("all0", "allF"):
                 for j in range(3, n - 3):
                     g[j] = 0 if k == "all0" else 0xFF
+            elif k == "endD3":
+                g[n - 1] = 0xD3
+                if rng.random() < 0.5:
+                    g[rng.randint(3, n - 4)] ^= 1 << rng.randint(0, 7)
             else:
                 g[n - 3:] = b"\x00\x00\x00"
         else:
